@@ -26,6 +26,7 @@ FromSV(x) ==
     [] x.k = "str"  -> [k |-> "str", cs |-> x.cs]
     [] x.k = "bool" -> [k |-> "bool", v |-> x.v]
     [] x.k = "null" -> NullV
+    [] x.k = "rat"  -> x                      \* already a reference value (aggregate results in post-aggregation environments)
     [] OTHER -> [k |-> "opaque", v |-> x]
 IsRat(x) == x.k = "rat"
 IsS(x) == x.k = "str"
